@@ -141,6 +141,11 @@ class _Card:
         return out
 
 
+def _raw_inside(jm, e, L):
+    """ALL conditions established inside loop L (the negated raise guards included: C11 is about exactly those)."""
+    return tuple(e.conds[len(jm.it.loops[L].conds):])
+
+
 def _right_check(c: _Card) -> Tuple[bool, str, Optional[ast.AST]]:
     jm, it = c.jm, c.it
     e = c.right_raise
@@ -154,7 +159,7 @@ def _right_check(c: _Card) -> Tuple[bool, str, Optional[ast.AST]]:
     lits = [(t, p) for t, p in lits if t != vlit and t != c.right_lit]
     if jm.index_loop in e.loops:
         # raise on the spot: under (flag, key already has a bucket)
-        inside = [(t, p) for t, p in lits if (t, p) in c.split(jm.conds_inside(e, il.id))]
+        inside = [(t, p) for t, p in lits if (t, p) in c.split(_raw_inside(jm, e, il.id))]
         ok = len(inside) == 1 and _repeat_test(jm, inside[0]) and len(lits) == 1
         if not ok:
             return False, (f"right-duplicate raise in the index loop happens under `{show_conds(lits, it)[:90]}`, expected exactly "
@@ -187,7 +192,7 @@ def _right_check(c: _Card) -> Tuple[bool, str, Optional[ast.AST]]:
     for st in fills:
         if il.id not in st.loops:
             return False, "the duplicates record is filled outside the index loop", st.node
-        g = c.split(jm.conds_inside(st, il.id))
+        g = c.split(_raw_inside(jm, st, il.id))
         rep = [x for x in g if _repeat_test(jm, x)]
         first = [x for x in g if _repeat_test(jm, (x[0], not x[1]))]
         if first:
@@ -235,7 +240,7 @@ def _left_check(c: _Card) -> Tuple[bool, str, Optional[ast.AST]]:
     key = None
     b = jm.bucket
     key = b[2][0] if b[0] == "call" else b[2]
-    inside = c.split(jm.conds_inside(e, pl.id))
+    inside = c.split(_raw_inside(jm, e, pl.id))
     rest = [(t, p) for t, p in inside if t != c.left_lit]
     if len(rest) != 1 or not rest[0][1] or not (rest[0][0][0] == "cmp" and rest[0][0][1] == "In" and rest[0][0][2] == key):
         return False, (f"left-duplicate raise is under `{show_conds(inside, it)[:100]}`; expected exactly (flag and key of this row already "
@@ -259,7 +264,7 @@ def _left_check(c: _Card) -> Tuple[bool, str, Optional[ast.AST]]:
     if len(good) != 1 or len(adds) != 1:
         return False, f"the key of every probed row is not recorded exactly once ({len(adds)} add site(s))", (adds[0].node if adds else e.node)
     a = good[0]
-    ac = c.split(jm.conds_inside(a, pl.id))
+    ac = c.split(_raw_inside(jm, a, pl.id))
     want = [(c.left_lit, True), (rest[0][0], False)]
     if sorted(map(repr, ac)) != sorted(map(repr, want)):
         if a.seq < e.seq or (rest[0][0], False) not in ac:
@@ -323,7 +328,7 @@ def _no_influence(c: _Card) -> Tuple[bool, str, Optional[ast.AST]]:
         for t, p in e.conds:
             if not _mentions(t, ex):
                 continue
-            if t in raise_guards:
+            if t in raise_guards or (t, p) in it.no_raise_lits:
                 continue
             return False, (f"`{show(e.term, it)[:60]}` (line {getattr(e.node, 'lineno', '?')}) runs only under `{show_conds([(t, p)], it)[:70]}`: "
                            f"expect influences more than the cardinality raises"), e.node
@@ -331,7 +336,7 @@ def _no_influence(c: _Card) -> Tuple[bool, str, Optional[ast.AST]]:
         if lp.iter is not None and _mentions(lp.iter, ex):
             return False, f"a loop ranges over `{show(lp.iter, it)[:70]}`, which depends on expect", lp.node
         for t, p in lp.conds:
-            if _mentions(t, ex) and t not in raise_guards:
+            if _mentions(t, ex) and t not in raise_guards and (t, p) not in it.no_raise_lits:
                 return False, f"a loop runs only under `{show_conds([(t, p)], it)[:70]}`", lp.node
     return True, "expect reaches only the cardinality tests, their bookkeeping and messages", None
 
